@@ -40,6 +40,8 @@ def gen_env(rng, kind=None, flip=None):
     e = _gen_env(rng, kind)
     if (rng.random() < 1 / 6) if flip is None else flip:
         e["flip"] = True
+    if rng.random() < 0.25:
+        e["fee"] = "0.05"            # another fee tier of the oSQTH/WETH pool (tick spacing 10 divides the generated ticks)
     return e
 
 
@@ -165,10 +167,12 @@ def gen_op(rng, world, state):
     lent = [k for k in poss if pmap[tuple(k)]["transferred"]]
     idx = index_price(world)
     kinds = ["openMint"] * 4 + ["deposit"] * 2 + ["burnWithdraw"] * 4 + ["depositUni"] * 2 + ["withdrawUni"] * 2 + \
-            ["liquidate"] * 2 + ["update"] * 4 + ["uniRemove"] + ["reduceDebt"]
+            ["liquidate"] * 2 + ["update"] * 4 + ["uniRemove"] + ["reduceDebt"] + ["buy"] * 2 + ["sell"] * 2
     k = rng.choice(kinds)
-    if not vaults and k not in ("openMint", "update", "uniRemove"):
+    if not vaults and k not in ("openMint", "update", "uniRemove", "buy", "sell"):
         k = "openMint"
+    if k in ("buy", "sell"):
+        return gen_trade(rng, world, k)
 
     def some_vault():
         r = rng.random()
@@ -274,6 +278,43 @@ def gen_op(rng, world, state):
     return {"k": "update"}, f"{len(vaults)}-vaults"
 
 
+TRADE_CLASSES = ["part", "part", "part", "part", "all", "dust-over", "over", "zero", "negative", "tiny"]
+
+
+def gen_trade(rng, world, k, cls=None, form=None):
+    """buy_squeeth / sell_squeeth: mostly-valid amounts in both parameter forms (oSQTH amount, ETH amount, both, neither), the exact wallet
+    balance, a hair more, far more, zero, negative.  `part/all/over` are relative to what the wallet can pay: for a buy the WETH balance
+    (cost = oSQTH · pool price / (1 − fee)), for a sell the oSQTH balance."""
+    cls = cls or rng.choice(TRADE_CLASSES)
+    form = form or rng.choice(["osqth", "osqth", "eth", "eth", "both", "none"])
+    bal_w = world.broker.get_token_balance(world.weth) if world.weth in world.broker.assets else D(0)
+    bal_o = world.broker.get_token_balance(world.osqth) if world.osqth in world.broker.assets else D(0)
+    price = D(world.env["uniPrice"])
+    fee = world.uni.pool_info.fee_rate
+    row_o = world.cur()[2]
+    if k == "buy":
+        full = bal_w * (1 - fee) / price if price > 0 else D(1)         # oSQTH that costs the whole WETH balance
+    else:
+        full = bal_o
+    if full == 0 and cls in ("part", "all", "dust-over"):
+        full = D(1)
+    amt = {"part": full * D(str(round(rng.uniform(0.02, 0.95), 4))), "all": full, "dust-over": full * D("1.000001"), "over": full * 2 + 1,
+           "zero": D(0), "negative": -dec(rng, "0.1", 3, 3), "tiny": D("1E-18")}[cls]
+    if rng.random() < 0.5:
+        amt = q(amt, 12)
+    eth = amt * row_o                                                    # the wrapper divides by the squeeth row's oSQTH price
+    op = {"k": k, "osqth": None, "eth": None, "call": rng.choice(["kw", "kw", "pos", "kw-given"])}
+    if form == "osqth":
+        op["osqth"] = amt
+    elif form == "eth":
+        op["eth"] = eth
+        if op["call"] == "pos":
+            op["call"] = "kw"                                            # a lone ETH amount cannot be passed positionally
+    elif form == "both":
+        op["osqth"], op["eth"] = amt, dec(rng, 0, 50, 4)                 # the oSQTH amount wins, the ETH amount is ignored
+    return op, f"{form}:{cls}"
+
+
 def parse_spec(s):
     return {"wallet": [[n, D(str(b))] for n, b in s["wallet"]],
             "vaults": [[int(k), {"coll": D(str(v["coll"])), "short": D(str(v["short"])), "nft": None if v["nft"] is None else [int(x) for x in v["nft"]]}] for k, v in s["vaults"]],
@@ -286,12 +327,14 @@ def parse_env(e):
          "cur": [D(str(x)) for x in e["cur"]], "uniPrice": D(str(e["uniPrice"])), "uniOpen": bool(e["uniOpen"]), "kind": e.get("kind", "")}
     if e.get("flip"):
         r["flip"] = True
+    if e.get("fee") is not None:
+        r["fee"] = str(e["fee"])
     return r
 
 
 def parse_op(o):
     r = dict(o)
-    for f in ("deposit", "mint", "eth", "burn", "withdraw", "byRate"):
+    for f in ("deposit", "mint", "eth", "burn", "withdraw", "byRate", "osqth"):
         if f in r and r[f] is not None:
             r[f] = D(str(r[f]))
     return r
